@@ -107,8 +107,8 @@ class DefaultDeploymentManager(DeploymentManager):
             # If it has already been processed by the DeploymentManager
             if deployment_name in self.config_map:
                 # If the DeploymentManager is creating the environment, wait for it to finish
-                if deployment_name not in self.deployments_map:
-                    await self.events_map[deployment_name].wait()
+                # (the connector is registered in `deployments_map` before it is deployed)
+                await self.events_map[deployment_name].wait()
                 await self._inner_deploy(
                     connector_type=type(self.deployments_map[deployment_name]),
                     deployment_config=self.config_map[deployment_name],
